@@ -1166,10 +1166,16 @@ theorem write_canonParam (ns : Str) (names : List (Option Str)) (nodename : Stri
 theorem paramNames_canon (ps : List Param) : paramNames (ps.map canonParam) = paramNames ps := by
   simp [paramNames, canonParam, Function.comp_def]
 
+theorem returnTransfer_canon (r : Return) : returnTransfer (canonReturn r) = returnTransfer r := by
+  show (if truthy (returnTransfer r) then returnTransfer r else optIf r.skip sTransferNone) = returnTransfer r
+  unfold returnTransfer
+  rcases r.transfer with _ | ⟨_ | ⟨c, cs⟩⟩ <;> cases r.skip <;> rfl
+
 theorem write_canonReturn (ns : Str) (names : List (Option Str)) (r : Return) :
     writeReturn ns names (canonReturn r) = writeReturn ns names r := by
   unfold writeReturn
-  simp only [canonReturn, write_canonTy, write_canonDocs, keepTruthy_idem, Bool.not_false, Bool.and_true]
+  rw [returnTransfer_canon]
+  simp only [canonReturn, write_canonTy, write_canonDocs, Bool.not_false, Bool.and_true]
 
 theorem mapMExcept_map {α β γ : Type} (f : β → Except Err γ) (g : α → β) (l : List α) :
     mapMExcept f (l.map g) = mapMExcept (fun a => f (g a)) l := by
